@@ -41,6 +41,13 @@ package vm
 //@ axiom auto_wfTypeStruct: forall t *ast.TypeStruct :: t != nil && t.Kind == ast.TypeMap ==> t.Key != nil && t.SubType != nil
 //@ axiom auto_wfStructTypes: forall t *ast.TypeStruct, i int :: t != nil && 0 <= i && i < len(t.StructTypes) ==> t.StructTypes[i] != nil
 //@ axiom auto_wfStructNames: forall t *ast.TypeStruct :: t != nil ==> len(t.StructNames) == len(t.StructTypes)
+// goesOn(k): the k-th direct evaluation of this activation let the loop go on (no error, or a continue)
+//@ spec fun goesOn(k int) bool = res(k) == nil || (calleeIs(k, "runSingleStmt") && res(k) == ErrContinue)
+// stopsAtSignal(): a break, return or error ended the loop at once: every evaluation but the last one went on
+//@ spec fun stopsAtSignal() bool = forall k int :: 0 <= k && k < ncalls() - 1 ==> goesOn(k)
+//@ spec fun allGoOn() bool = forall k int :: 0 <= k && k < ncalls() ==> goesOn(k)
+// lastBody(e): the last evaluation was a statement that left error e
+//@ spec fun lastBody(e error) bool = ncalls() >= 1 && calleeIs(ncalls()-1, "runSingleStmt") && res(ncalls()-1) == e
 // ASSUMPTION (parser): the init clause of a C-style for is a var or assignment statement
 //@ axiom auto_wfCFor: forall c *ast.CForStmt :: c != nil ==> c.Stmt1 == nil || typeis(c.Stmt1, "*ast.VarStmt") || typeis(c.Stmt1, "*ast.LetsStmt") || typeis(c.Stmt1, "*ast.ExprStmt")
 // ASSUMPTION (parser): module names are identifiers, they never contain a '.'
@@ -123,6 +130,7 @@ package vm
 
 //@ func (*runInfoStruct).runSingleStmt
 //@ props C04 C08 C02
+//@ traced runInfo.stmt -> runInfo.err; runInfo.rv
 //@ requires ok: riOK(runInfo)
 //@ requires [C01] okvin: rvValid(runInfo.rv)
 //@ ensures [C01] okv: rvValid(runInfo.rv)
@@ -143,6 +151,9 @@ package vm
 //@ like template.evalStmt
 //@ requires stmts != nil
 //@ loop 0 invariant actInv(runInfo) && runInfo.err == nil
+//@ ensures [C08 C09] stops: forall k int :: 0 <= k && k < ncalls() - 1 ==> res(k) == nil
+//@ ensures [C08] order: forall k int :: 0 <= k && k < ncalls() ==> calleeIs(k, "runSingleStmt") && arg(k) == stmts.Stmts[k]
+//@ loop 0 invariant ncalls() == rangeindex + 1 && rangeindex < len(stmts.Stmts) && (forall k int :: 0 <= k && k < ncalls() ==> res(k) == nil && calleeIs(k, "runSingleStmt") && arg(k) == stmts.Stmts[k])
 
 //@ func (*runInfoStruct).runIfStmt
 //@ props C04 C08 C02
@@ -161,6 +172,10 @@ package vm
 //@ requires stmt != nil
 //@ loop 0 invariant actInvE(runInfo) && env == old(runInfo.env) && runInfo.err == nil
 //@ loop 0 progress polls
+//@ ensures [C08] stops: stopsAtSignal()
+//@ ensures [C08] returns: lastBody(ErrReturn) ==> runInfo.err == ErrReturn && runInfo.rv == res2(ncalls()-1)
+//@ ensures [C08] breaks: lastBody(ErrBreak) ==> runInfo.err == nil && runInfo.rv == nilValue
+//@ loop 0 invariant allGoOn()
 
 //@ func (*runInfoStruct).runForStmt
 //@ props C04 C08 C02
@@ -173,6 +188,10 @@ package vm
 //@ requires stmt != nil
 //@ loop 0 invariant actInv(runInfo) && runInfo.err == nil
 //@ loop 0 progress polls
+//@ ensures [C08] stops: stopsAtSignal()
+//@ ensures [C08] returns: lastBody(ErrReturn) ==> runInfo.err == ErrReturn && runInfo.rv == res2(ncalls()-1)
+//@ ensures [C08] breaks: lastBody(ErrBreak) ==> runInfo.err == nil && runInfo.rv == nilValue
+//@ loop 0 invariant allGoOn()
 
 //@ func (*runInfoStruct).runForMapStmt
 //@ props C04 C08 C02
@@ -180,6 +199,10 @@ package vm
 //@ requires stmt != nil
 //@ loop 0 invariant actInv(runInfo) && runInfo.err == nil
 //@ loop 0 progress polls
+//@ ensures [C08] stops: stopsAtSignal()
+//@ ensures [C08] returns: lastBody(ErrReturn) ==> runInfo.err == ErrReturn && runInfo.rv == res2(ncalls()-1)
+//@ ensures [C08] breaks: lastBody(ErrBreak) ==> runInfo.err == nil && runInfo.rv == nilValue
+//@ loop 0 invariant allGoOn()
 
 //@ func (*runInfoStruct).runForChanStmt
 //@ props C04 C08 C02
@@ -188,6 +211,10 @@ package vm
 //@ loop 0 invariant actInv(runInfo) && runInfo.err == nil
 //@ loop 0 progress polls
 //@ callsite reflect.Select * [C02] ctxfirst: ctxFirst(arg0, runInfo.ctx)
+//@ ensures [C08] stops: stopsAtSignal()
+//@ ensures [C08] returns: lastBody(ErrReturn) ==> runInfo.err == ErrReturn && runInfo.rv == res2(ncalls()-1)
+//@ ensures [C08] breaks: lastBody(ErrBreak) ==> runInfo.err == nil && runInfo.rv == nilValue
+//@ loop 0 invariant allGoOn()
 
 //@ func (*runInfoStruct).runCForStmt
 //@ props C04 C08 C02
@@ -195,6 +222,10 @@ package vm
 //@ requires stmt != nil
 //@ loop 0 invariant actInvE(runInfo) && env == old(runInfo.env) && runInfo.err == nil
 //@ loop 0 progress polls
+//@ ensures [C08] stops: forall k int :: 1 <= k && k < ncalls() - 1 ==> goesOn(k)
+//@ ensures [C08] returns: ncalls() >= 2 && lastBody(ErrReturn) ==> runInfo.err == ErrReturn && runInfo.rv == res2(ncalls()-1)
+//@ ensures [C08] breaks: ncalls() >= 2 && lastBody(ErrBreak) ==> runInfo.err == nil && runInfo.rv == nilValue
+//@ loop 0 invariant forall k int :: 1 <= k && k < ncalls() ==> goesOn(k)
 
 //@ func (*runInfoStruct).runVarStmt
 //@ props C04 C08 C02
